@@ -99,6 +99,19 @@ pub fn spell_int(value: u128, radix: u32, upper_prefix: bool, upper_digits: bool
             digits = s;
         }
         2 => digits.push('_'),
+        // leading zeros up to exactly the digit count of 2^128-1 in this radix (4) and two beyond it (5)
+        4 | 5 => {
+            let max_digits = match radix {
+                2 => 128,
+                8 => 43,
+                16 => 32,
+                _ => 39,
+            };
+            let want = if underscores == 4 { max_digits } else { max_digits + 2 };
+            while digits.len() < want {
+                digits.insert(0, '0');
+            }
+        }
         _ => {}
     }
     match radix {
